@@ -87,69 +87,97 @@ theorem C14_plugin_dir_files (st : Index) (dir p : Path) (h : p ∈ st.pluginDir
     simp only [hl, Bool.and_eq_true, Bool.not_eq_true'] at h4
     exact ⟨n, rfl, h4.1.1, h4.1.2⟩
 
-theorem importStep_no_mark (processed : List Path) (acc : List Path × List Path × Index) (t : Path) :
-    (importStep processed false acc t).2.2 = acc.2.2 ∧ (importStep processed false acc t).2.1 = acc.2.1 := by
+theorem importStep_no_mark (acc : ScanAcc) (t : Path) :
+    (importStep false acc t).st = acc.st ∧ (importStep false acc t).re = acc.re ∧
+    (importStep false acc t).processed = acc.processed ∧ (importStep false acc t).rewalk = acc.rewalk := by
   simp [importStep]
 
 /-- an unmarked step never touches the plugin marks; a marking step adds exactly the target -/
-theorem importStep_marks (processed : List Path) (mark : Bool) (acc : List Path × List Path × Index) (t : Path) :
-    (importStep processed mark acc t).2.2.pluginFiles =
-      if mark && !acc.2.2.pluginFiles.contains t then acc.2.2.pluginFiles ++ [t] else acc.2.2.pluginFiles := by
+theorem importStep_marks (mark : Bool) (acc : ScanAcc) (t : Path) :
+    (importStep mark acc t).st.pluginFiles =
+      if mark && !acc.st.pluginFiles.contains t then acc.st.pluginFiles ++ [t] else acc.st.pluginFiles := by
   unfold importStep
   simp only
   split <;> rfl
 
+/-- a file is walked again exactly when the step that marks it as a plugin file finds it already
+    processed (the repair of the visiting-order dependence): otherwise `processed` is untouched -/
+theorem importStep_rewalk (mark : Bool) (acc : ScanAcc) (t : Path) :
+    (importStep mark acc t).processed =
+      if mark && !acc.st.pluginFiles.contains t && acc.processed.contains t
+      then acc.processed.filter (fun g => g != t) else acc.processed := by
+  unfold importStep
+  simp only
+
 /-- **C14 (plugin status propagates along star imports and `pytest_plugins` only, and only from
     files that are plugin files themselves)**: scanning the imports of a file that is not a
     plugin file marks nothing — whatever it imports, however. -/
-theorem C14_plugin_mark_propagation (st : Index) (processed : List Path) (f : Path)
-    (acc : List Path × List Path × Index) (hnot : acc.2.2.pluginFiles.contains f = false) :
-    (importScanFile st processed f acc).2.2 = acc.2.2 := by
+theorem C14_plugin_mark_propagation (f : Path) (acc : ScanAcc) (hnot : acc.st.pluginFiles.contains f = false) :
+    (importScanFile f acc).st = acc.st ∧ (importScanFile f acc).processed = acc.processed := by
   unfold importScanFile
-  cases hc : acc.2.2.content f with
-  | none => rfl
+  cases hc : acc.st.content f with
+  | none => exact ⟨rfl, rfl⟩
   | some v =>
     cases hp : v.parsed with
     | none =>
       cases v
       simp only at hp
       subst hp
-      rfl
+      exact ⟨rfl, rfl⟩
     | some fr =>
       cases v
       simp only at hp
       subst hp
       simp only [hnot, Bool.false_and]
-      have hfold1 : ∀ (imps : List ImportRec) (a : List Path × List Path × Index),
+      have hfold1 : ∀ (imps : List ImportRec) (a : ScanAcc),
           (imps.foldl (fun acc imp =>
-            match acc.2.2.resolveModule imp.modulePath f with
-            | some t => importStep processed false acc t
-            | none => acc) a).2.2 = a.2.2 := by
+            match acc.st.resolveModule imp.modulePath f with
+            | some t => importStep false acc t
+            | none => acc) a).st = a.st ∧
+          (imps.foldl (fun acc imp =>
+            match acc.st.resolveModule imp.modulePath f with
+            | some t => importStep false acc t
+            | none => acc) a).processed = a.processed := by
         intro imps
         induction imps with
-        | nil => intro a; rfl
+        | nil => intro a; exact ⟨rfl, rfl⟩
         | cons i is ih =>
           intro a
           simp only [List.foldl_cons]
-          rw [ih]
-          cases a.2.2.resolveModule i.modulePath f with
-          | none => rfl
-          | some t => exact (importStep_no_mark processed a t).1
-      have hfold2 : ∀ (ms : List String) (a : List Path × List Path × Index),
+          obtain ⟨h1, h2⟩ := ih (match a.st.resolveModule i.modulePath f with
+            | some t => importStep false a t
+            | none => a)
+          rw [h1, h2]
+          cases a.st.resolveModule i.modulePath f with
+          | none => exact ⟨rfl, rfl⟩
+          | some t => exact ⟨(importStep_no_mark a t).1, (importStep_no_mark a t).2.2.1⟩
+      have hfold2 : ∀ (ms : List String) (a : ScanAcc),
           (ms.foldl (fun acc m =>
-            match acc.2.2.resolveModule m f with
-            | some t => importStep processed false acc t
-            | none => acc) a).2.2 = a.2.2 := by
+            match acc.st.resolveModule m f with
+            | some t => importStep false acc t
+            | none => acc) a).st = a.st ∧
+          (ms.foldl (fun acc m =>
+            match acc.st.resolveModule m f with
+            | some t => importStep false acc t
+            | none => acc) a).processed = a.processed := by
         intro ms
         induction ms with
-        | nil => intro a; rfl
+        | nil => intro a; exact ⟨rfl, rfl⟩
         | cons i is ih =>
           intro a
           simp only [List.foldl_cons]
-          rw [ih]
-          cases a.2.2.resolveModule i f with
-          | none => rfl
-          | some t => exact (importStep_no_mark processed a t).1
-      exact (hfold2 fr.plugins _).trans (hfold1 fr.imports acc)
+          obtain ⟨h1, h2⟩ := ih (match a.st.resolveModule i f with
+            | some t => importStep false a t
+            | none => a)
+          rw [h1, h2]
+          cases a.st.resolveModule i f with
+          | none => exact ⟨rfl, rfl⟩
+          | some t => exact ⟨(importStep_no_mark a t).1, (importStep_no_mark a t).2.2.1⟩
+      obtain ⟨a1, a2⟩ := hfold1 fr.imports acc
+      obtain ⟨b1, b2⟩ := hfold2 fr.plugins (fr.imports.foldl (fun acc imp =>
+            match acc.st.resolveModule imp.modulePath f with
+            | some t => importStep false acc t
+            | none => acc) acc)
+      exact ⟨b1.trans a1, b2.trans a2⟩
 
 end PLS
